@@ -27,3 +27,22 @@ pub proof fn lemma_plain_prefix(p: Seq<char>, t: Seq<char>)
     }
 }
 
+
+// An unquoted run of ordinary characters followed by a blank/newline (or the end) is read as exactly that word.
+// Under the unit's Display assumption (Display of i64/f64/bool yields only [0-9A-Za-z.+-], all ordinary) this is
+// the "one unaltered word" statement for the non-string scalars.
+pub proof fn lemma_plain_word(p: Seq<char>, following: Seq<char>)
+    requires sh_all_plain(p), sh_at_delim(following)
+    ensures sh_yields(sh_word(p + following), p, following)
+{
+    lemma_plain_prefix(p, following);
+    assert(sh_word(following) == sh_stop(true, following));
+    assert(p + Seq::<char>::empty() =~= p);
+}
+
+pub proof fn lemma_bool_words_plain()
+    ensures sh_all_plain("true"@), sh_all_plain("false"@)
+{
+    reveal_strlit("true");
+    reveal_strlit("false");
+}
